@@ -11,6 +11,9 @@ ID = "C08"
 LEAN_MODULE = "UralModel.Props.C08"
 THEOREMS = [
     "Ural.Props.C08.walk_eq_psl",
+    "Ural.Props.C08.no_matching_rule_none",
+    "Ural.Props.C08.longest_rule_wins",
+    "Ural.Props.C08.exception_yields_parent",
     "Ural.Props.C08.pslLen_bounds",
     "Ural.Props.C08.split_spec",
     "Ural.Props.C08.extract_suffix_spec",
